@@ -277,7 +277,7 @@ func (p *Program) binTransform(g mdGate, codec string) bool {
 	// the transformation loop may live in a transparent helper called under the suffix test
 	p.eachInstrRegion(g.fn, func(_ *ssa.Function, in ssa.Instruction) {
 		c, isCall := in.(*ssa.Call)
-		if !isCall || calleeName(c) != codec {
+		if !isCall || !p.isBase64Call(c, strings.Contains(codec, "encode")) {
 			return
 		}
 		guarded := p.guardedInEveryContext(c.Block(), func(gf guardFact) bool {
@@ -333,6 +333,38 @@ func (p *Program) binTransform(g mdGate, codec string) bool {
 		}
 	})
 	return ok
+}
+
+// isBase64Call: c encodes (or decodes) with encoding/base64 itself, or calls a module function that does
+// (encodeBinHeader / decodeBinHeader, or the same logic spelled out at the call site).
+func (p *Program) isBase64Call(c *ssa.Call, encode bool) bool {
+	direct := func(x ssa.CallInstruction) bool {
+		n := calleeName(x)
+		if !strings.HasPrefix(n, "(*encoding/base64.Encoding).") {
+			return false
+		}
+		m := strings.TrimPrefix(n, "(*encoding/base64.Encoding).")
+		if encode {
+			return m == "EncodeToString" || m == "Encode" || m == "AppendEncode"
+		}
+		return m == "DecodeString" || m == "Decode" || m == "AppendDecode"
+	}
+	if direct(c) {
+		return true
+	}
+	callee := c.Call.StaticCallee()
+	if callee == nil || c.Call.IsInvoke() || !p.InModule(callee) {
+		return false
+	}
+	found := false
+	for _, g := range p.staticReach(callee) {
+		eachInstr(g, func(in ssa.Instruction) {
+			if x, ok := in.(ssa.CallInstruction); ok && direct(x) {
+				found = true
+			}
+		})
+	}
+	return found
 }
 
 func ruleMDGateIn(r *Run) {
